@@ -18,15 +18,21 @@ Theorems about `Model/Material.lean`.
   refractiveindex.info document evaluated on the zero-padded coefficients; `formulaK_raises`
   characterises the lengths for which the code raises `ValueError`.  `formulaK_published` shows that the
   specification function really solves the published (implicit) equation.
-* `interp_knots`, `interp_linear_between`, `interp_clamps_left/right`, `interp_in_hull`, `interp_raises`:
+* `interp_piecewise_linear` (every `x` inside the table's range), `interp_knots`, `interp_linear_between`, `interp_clamps_left/right`, `interp_in_hull`, `interp_raises`:
   `np.interp` on strictly increasing knots.
 * `levenshtein_dp_eq_spec`, `levenshtein_zero_iff_eq`.
 * `abbe_def`, `polyval_horner`.
 * `lookup_exact_name`, `lookup_exact_name_ref`, `lookup_exact_name_own_ref`, `catalog_unambiguous`,
   `ambiguous_genuine`: over the regenerated catalogue table `Gen.Catalog.rows`.
 
+* `formula_code_eq_spec`: the same through the dispatcher `formula_code k` that the driver runs.
+* `lookup_code_eq_spec`, `lookup_exact_name_code`: the tree's regular-expression lookup agrees with the
+  literal one on metacharacter-free names, so `lookup_exact_name` holds for the code there.
+* non-vacuity: `rows_length`, `lookup_exact_name_nonvacuous`, `lookup_exact_name_code_nonvacuous`.
+
 Not covered by theorems (see the harness): IEEE rounding; the regular-expression semantics of the tree
-(`lookup_code`, finding F10) is only run, not reasoned about; the accuracy of the model-glass fit.
+(`lookup_code`, finding F10) on names *with* metacharacters is only run, not reasoned about; scalar
+versus array arguments and the per-row data files (coefficients, ranges) are compared by the harness only; the accuracy of the model-glass fit.
 -/
 namespace C18
 open Model.Mat
@@ -248,6 +254,46 @@ theorem formula9_published (C : ℕ → ℝ) (l : ℝ) (h : 0 ≤ formula9_rhs C
 example : ([0, 1.03961212, 0.00600069867, 0.231792344, 0.0200179144, 1.01046945, 103.560653] :
     List ℝ).length % 2 = 1 ∧ (7 : ℕ) ≤ 17 := ⟨rfl, by decide⟩
 
+/-- the coefficient counts for which formula `k` of the document is defined (and the code does not raise) -/
+def ValidLen (k n : Nat) : Prop :=
+  match k with
+  | 1 | 2 | 3 => n % 2 = 1 ∧ n ≤ 17
+  | 4 => n % 2 = 1 ∧ 9 ≤ n ∧ n ≤ 17
+  | 5 | 6 => n % 2 = 1 ∧ n ≤ 11
+  | 7 => 3 ≤ n ∧ n ≤ 6
+  | 8 => n = 4
+  | 9 => n = 6
+  | _ => False
+
+/-- **the dispatcher the driver runs** (`MaterialFile.n`: `formula_map[type]`): for each of the nine type
+strings and every coefficient list of a length the document provides for, `formula_code k` returns the
+value of `formula_spec k` (positive wavelength needed for formula 6 only) -/
+theorem formula_code_eq_spec (k : Nat) (c : List ℝ) (w : ℝ) (hw : k = 6 → 0 < w)
+    (h : ValidLen k c.length) : formula_code k c w = some (formula_spec k c w) := by
+  match k, h with
+  | 1, h => exact formula1_code_eq_spec c w h.1 h.2
+  | 2, h => exact formula2_code_eq_spec c w h.1 h.2
+  | 3, h => exact formula3_code_eq_spec c w h.1 h.2
+  | 4, h => exact formula4_code_eq_spec c w h.1 h.2.1 h.2.2
+  | 5, h => exact formula5_code_eq_spec c w h.1 h.2
+  | 6, h => exact formula6_code_eq_spec c w (hw rfl) h.1 h.2
+  | 7, h => exact formula7_code_eq_spec c w h.1 h.2
+  | 8, h => exact formula8_code_eq_spec c w h
+  | 9, h => exact formula9_code_eq_spec c w h
+
+/-- a type string `formula k` with `k` outside 1…9 has no entry in `formula_map` -/
+theorem formula_code_unknown (k : Nat) (c : List ℝ) (w : ℝ) (h : k = 0 ∨ 10 ≤ k) :
+    formula_code k c w = none := by
+  match k, h with
+  | 0, _ => rfl
+  | k + 10, _ => rfl
+
+/-- non-vacuity: Sellmeier-2 with seven coefficients (N-BK7-like) is a valid instance of the dispatcher theorem -/
+example (w : ℝ) : formula_code 2 [0, 1.03961212, 0.00600069867, 0.231792344, 0.0200179144, 1.01046945,
+    103.560653] w = some (formula_spec 2 [0, 1.03961212, 0.00600069867, 0.231792344, 0.0200179144,
+    1.01046945, 103.560653] w) :=
+  formula_code_eq_spec 2 _ w (fun h => absurd h (by decide)) ⟨rfl, by decide⟩
+
 /-! ## tabulated data: `np.interp` -/
 
 /-- `np.interp` raises only for an empty table -/
@@ -342,9 +388,59 @@ example : Incr [((1 : ℝ), (2 : ℝ)), (2, 5), (4, 3)] := by
     forall_eq, List.Pairwise.nil, and_true, IsEmpty.forall_iff, implies_true]
   norm_num
 
+/-- a point between the first knot and some later knot lies between two consecutive knots -/
+theorem exists_bracket (x : ℝ) : ∀ (rest : List (ℝ × ℝ)) (a : ℝ × ℝ), a.1 ≤ x → (∃ z ∈ rest, x ≤ z.1) →
+    ∃ pre p q post, a :: rest = pre ++ p :: q :: post ∧ p.1 ≤ x ∧ x ≤ q.1
+  | [], a, _, ⟨z, hz, _⟩ => by simp at hz
+  | b :: rest, a, ha, ⟨z, hz, hxz⟩ => by
+    by_cases hb : x ≤ b.1
+    · exact ⟨[], a, b, rest, rfl, ha, hb⟩
+    · have hz' : z ∈ rest := by
+        rcases List.mem_cons.mp hz with rfl | h
+        · exact absurd hxz hb
+        · exact h
+      obtain ⟨pre, p, q, post, e, h1, h2⟩ := exists_bracket x rest b (not_le.mp hb).le ⟨z, hz', hxz⟩
+      exact ⟨a :: pre, p, q, post, by rw [e]; rfl, h1, h2⟩
+
+/-- **every abscissa inside the table's range** (the quantifier of the property: "any wavelength inside
+the entry's stated range"): on strictly increasing knots, for `x` between the abscissae of two knots
+`lo`, `hi` of the table (`lo.1 < hi.1`), `np.interp` returns the value at `x` of the straight line through
+two *consecutive* knots that bracket `x` -/
+theorem interp_piecewise_linear (l : List (ℝ × ℝ)) (x : ℝ) (hinc : Incr l) (lo hi : ℝ × ℝ) (hlo : lo ∈ l)
+    (hhi : hi ∈ l) (hlt : lo.1 < hi.1) (h1 : lo.1 ≤ x) (h2 : x ≤ hi.1) :
+    ∃ pre p q post, l = pre ++ p :: q :: post ∧ p.1 ≤ x ∧ x ≤ q.1 ∧
+      interp x l = some (p.2 + (x - p.1) * (q.2 - p.2) / (q.1 - p.1)) := by
+  cases l with
+  | nil => simp at hlo
+  | cons a rest =>
+    have hmin : ∀ z ∈ a :: rest, a.1 ≤ z.1 := by
+      intro z hz
+      rcases List.mem_cons.mp hz with rfl | h
+      · exact le_refl _
+      · exact ((List.pairwise_cons.mp hinc).1 z h).le
+    have hhi' : hi ∈ rest := by
+      rcases List.mem_cons.mp hhi with rfl | h
+      · exact absurd (hmin lo hlo) (not_le.mpr hlt)
+      · exact h
+    obtain ⟨pre, p, q, post, e, hp, hq⟩ :=
+      exists_bracket x rest a (le_trans (hmin lo hlo) h1) ⟨hi, hhi', h2⟩
+    refine ⟨pre, p, q, post, e, hp, hq, ?_⟩
+    rw [e] at hinc ⊢
+    exact interp_linear_between x pre post p q hinc hp hq
+
+/-- non-vacuity: the three-knot table at `x = 3` -/
+example : interp (3 : ℝ) [((1 : ℝ), (2 : ℝ)), (2, 5), (4, 3)] = some (5 + (3 - 2) * (3 - 5) / (4 - 2)) := by
+  have hinc : Incr [((1 : ℝ), (2 : ℝ)), (2, 5), (4, 3)] := by
+    simp only [Incr, List.pairwise_cons, List.mem_cons, List.not_mem_nil, or_false, forall_eq_or_imp,
+      forall_eq, List.Pairwise.nil, and_true, IsEmpty.forall_iff, implies_true]
+    norm_num
+  exact interp_linear_between 3 [((1 : ℝ), (2 : ℝ))] [] (2, 5) (4, 3) hinc (by norm_num) (by norm_num)
+
 /-! ## Abbe number, model glass -/
 
-/-- `BaseMaterial.abbe` is `(n_d − 1)/(n_F − n_C)` at 587.5618, 486.1327 and 656.2725 nm -/
+/-- `BaseMaterial.abbe` is `(n_d − 1)/(n_F − n_C)` at 587.5618, 486.1327 and 656.2725 nm.
+(This only unfolds the model's definition and checks the three decimal constants; that the Python method
+computes the same is the harness's comparison, not a theorem.) -/
 theorem abbe_def (n : ℝ → ℝ) :
     abbe n = (n 0.5875618 - 1) / (n 0.4861327 - n 0.6562725) := by
   simp only [abbe, lamD, lamF, lamC]
@@ -450,5 +546,74 @@ theorem ambiguous_genuine : ∀ a ∈ ambiguous,
     simp [PStr.beq] at hxn
     exact hxn rfl rfl
   · simp at hw
+
+theorem rows_length : rows.length = nrows := by decide +kernel
+
+/-- non-vacuity of `lookup_exact_name`: the first row of the catalogue is a row whose name is not on the
+exception list -/
+theorem lookup_exact_name_nonvacuous : ∃ r ∈ rows, r.name ∉ ambiguous := by
+  refine ⟨chunk0.head!, ?_, ?_⟩
+  · apply List.mem_flatten.mpr
+    exact ⟨chunk0, by simp [chunks], by unfold chunk0; simp⟩
+  · unfold chunk0; decide +kernel
+
+/-! ## the lookup of the tree (`lookup_code`, regular-expression semantics) on metacharacter-free names -/
+
+/-- no regular-expression metacharacter (`\ ^ $ * + ? { } [ ] | ( ) .`) occurs in the string -/
+def noMeta (s : Str) : Bool := s.all fun c => !(otherMeta c) && c != 40 && c != 41 && c != 46
+
+theorem regexSimple_noMeta : ∀ (s : Str), noMeta s = true → regexSimple s 0 = .ok (s.map Tok.lit)
+  | [], _ => rfl
+  | c :: cs, h => by
+    simp only [noMeta, List.all_cons, Bool.and_eq_true, Bool.not_eq_true', bne_iff_ne, ne_eq] at h
+    obtain ⟨⟨⟨⟨h1, h2⟩, h3⟩, h4⟩, h5⟩ := h
+    have ih := regexSimple_noMeta cs (by simpa [noMeta] using h5)
+    simp only [regexSimple, h1, h2, h3, h4, Bool.false_eq_true, if_false, ih, List.map_cons]
+    rfl
+
+theorem matchPrefix_lit : ∀ (s t : Str), matchPrefix (s.map Tok.lit) t = isPrefix s t
+  | [], _ => by simp [matchPrefix, isPrefix]
+  | _ :: _, [] => by simp [matchPrefix, isPrefix]
+  | a :: as, b :: bs => by simp [matchPrefix, isPrefix, matchPrefix_lit as bs]
+
+theorem searchRe_lit (s : Str) : ∀ t : Str, searchRe (s.map Tok.lit) t = isInfix s t
+  | [] => by simp [searchRe, isInfix, matchPrefix_lit]
+  | b :: bs => by simp [searchRe, isInfix, matchPrefix_lit, searchRe_lit s bs]
+
+/-- **the tree's lookup agrees with the literal-substring specification** whenever the (lower-cased)
+name, and the reference if one is given, contain no regular-expression metacharacter -/
+theorem lookup_code_eq_spec (rs : List LRow) (name : Str) (hn : noMeta (lowerL name) = true) :
+    lookup_code rs name none = .rows (lookup_spec rs name none) ∧
+    ∀ ref : Str, ref ≠ [] → noMeta (lowerL ref) = true →
+      lookup_code rs name (some ref) = .rows (lookup_spec rs name (some ref)) := by
+  have e1 : searchRe ((lowerL name).map Tok.lit) = isInfix (lowerL name) := funext (searchRe_lit _)
+  refine ⟨?_, fun ref hne hr => ?_⟩
+  · simp only [lookup_code, regexSimple_noMeta _ hn, lookup_spec, Option.map_none, e1]
+  · have e2 : searchRe ((lowerL ref).map Tok.lit) = isInfix (lowerL ref) := funext (searchRe_lit _)
+    have he : ref.isEmpty = false := by cases ref <;> simp_all
+    simp only [lookup_code, regexSimple_noMeta _ hn, regexSimple_noMeta _ hr, lookup_spec, Option.map_some,
+      e1, e2, he, Bool.false_eq_true, if_false]
+
+/-- **lookup_exact_name for the code as it stands**: for every catalogue row whose name is not on the
+exception list and contains no regular-expression metacharacter (1700 of the 2593 rows; the others are
+the subject of finding F10), `Material(name)` as the tree computes it finds something and can only
+return rows with exactly that name -/
+theorem lookup_exact_name_code : ∀ r ∈ rows, r.name ∉ ambiguous → noMeta (lowerL r.name.str) = true →
+    ∃ l, lookup_code (lrows rows) r.name.str none = .rows l ∧ l ≠ [] ∧ ∀ x ∈ l, x.row.name = r.name := by
+  intro r hr hamb hm
+  obtain ⟨h1, h2⟩ := lookup_exact_name r hr hamb
+  exact ⟨_, (lookup_code_eq_spec _ _ hm).1, h1, h2⟩
+
+/-- non-vacuity: row 650 (`N-BK7HT`) satisfies the hypotheses of `lookup_exact_name_code` -/
+theorem lookup_exact_name_code_nonvacuous :
+    ∃ r ∈ rows, r.name ∉ ambiguous ∧ noMeta (lowerL r.name.str) = true := by
+  have h : (rows[650]?).any (fun r => decide (r.name ∉ ambiguous) && noMeta (lowerL r.name.str)) = true := by
+    decide +kernel
+  cases hr : rows[650]? with
+  | none => rw [hr] at h; simp at h
+  | some r =>
+    rw [hr] at h
+    simp only [Option.any_some, Bool.and_eq_true, decide_eq_true_eq] at h
+    exact ⟨r, List.mem_of_getElem? hr, h.1, h.2⟩
 
 end C18
